@@ -27,7 +27,7 @@ def claimPower (pw : Nat → Nat) (claims : List (Nat × Nat)) (R : Nat) : Nat :
 /-- the round the loop of `Pacemaker()` stops at: the highest claimed round `R` such that the power claiming `≥ R`
     passes the threshold test `reached`; 0 if there is none -/
 def pacemakerTarget (pw : Nat → Nat) (reached : Nat → Bool) (claims : List (Nat × Nat)) : Nat :=
-  (claims.map (·.2)).foldl (fun acc R => if reached (claimPower pw claims R) && decide (acc < R) then R else acc) 0
+  (((claims.map (·.2)).filter fun R => reached (claimPower pw claims R)).foldl Nat.max 0)
 
 /-- `Pacemaker()`: `NewRound(false)` then jump if the target is higher -/
 def pacemakerStep (pw : Nat → Nat) (reached : Nat → Bool) (claims : List (Nat × Nat)) (round : Nat) : Nat :=
